@@ -20,9 +20,11 @@ ValueKeys(L) ==
     [i \in DOMAIN PS |-> [kind |-> "v", syms |-> <<"v">> \o Code(PS[i], L),
                           name |-> Str(<<"v">> \o Code(PS[i], L)), pres |-> PS[i]]]
 
+\* with more than two non-default locales only one leaf pattern per group pattern is generated (the rotation of the group's)
 GroupKeys(L) ==
     LET PS == SortedSeq([Range(L) -> P3])
-        PP == SortedSeq(Range(PS) \X Range(PS)) IN
+        PP == IF Len(L) <= 2 THEN SortedSeq(Range(PS) \X Range(PS))
+              ELSE [i \in DOMAIN PS |-> <<PS[i], [x \in Range(L) |-> Rot[PS[i][x]]]>>] \o [i \in DOMAIN PS |-> <<[x \in Range(L) |-> "def"], PS[i]>>] IN
     [i \in DOMAIN PP |->
         LET gp == PP[i][1]  lp == PP[i][2]
             syms == <<"g">> \o Code(gp, L) \o <<"x">> \o Code(lp, L) IN
